@@ -22,7 +22,7 @@ ASSUMPTIONS = ["exact rational arithmetic (fractions) for all predicates", "quer
 FLOORS = {'quick': {'ray-status': 1500, 'ray-params': 500, 'is_left': 1500, 'wn_poly': 5000, 'hull': 300, 'voxel-fill': 1500,
                     'voxel-cover': 500, 'find_ctrlpts': 300},
           'thorough': {'ray-status': 15000, 'wn_poly': 50000, 'hull': 3000, 'voxel-fill': 15000}}
-MANDATORY_TAGS = ['vox:other-unit-of-length', 'ray:shared-far-end', 'vox:lattice', 'vox:padding=0.0', 'ray:cross2d', 'ray:cross3d', 'ray:parallel', 'ray:coincident', 'ray:skew', 'vox:planar-axis-aligned', 'vox:padding', 'ray:near-parallel', 'is_left:near-collinear', 'hull:float-near-collinear', 'ray:generic-cross2d', 'ray:generic-cross3d', 'ray:coords<=1000', 'ray:scale=2^-24', 'ray:scale=2^20', 'poly:star', 'poly:orthogonal',
+MANDATORY_TAGS = ['vox:container-sizes-differ', 'vox:other-unit-of-length', 'ray:shared-far-end', 'vox:lattice', 'vox:padding=0.0', 'ray:cross2d', 'ray:cross3d', 'ray:parallel', 'ray:coincident', 'ray:skew', 'vox:planar-axis-aligned', 'vox:padding', 'ray:near-parallel', 'is_left:near-collinear', 'hull:float-near-collinear', 'ray:generic-cross2d', 'ray:generic-cross3d', 'ray:coords<=1000', 'ray:scale=2^-24', 'ray:scale=2^20', 'poly:star', 'poly:orthogonal',
                   'poly:cw', 'poly:ccw', 'hull:collinear', 'vox:surface', 'vox:volume', 'vox:cubes', 'find:unnormalized']
 TECHNIQUE = ("runtime monitoring: exact-arithmetic oracles (orientation, crossing parity, definitional hull test, exact line "
              "intersection, point-in-box) on every predicate / query call of a constructed-class workload")
@@ -564,6 +564,13 @@ def check_voxel_container(case, ctx):
     pdim = rng.choice([2, 2, 3])
     k = rng.randint(2, 3)
     sds = [G.rand_shape(rng, pdim, dim=3, clamped_only=True, maxextra=2, maxdeg=3, pcls='uniform') for _ in range(k)]
+    if rng.random() < 0.4:
+        # (round 8) the later elements are models in another unit (2^-20 .. 2^-24 times as large): whatever is worked out per shape
+        # - the default padding - is worked out for every element, not carried over from the first
+        ctx.tag('vox:container-sizes-differ')
+        for sd in sds[1:]:
+            f_ = 2.0 ** -rng.choice([20, 22, 24])
+            sd['ctrlpts'] = [[c * f_ for c in p_] for p_ in sd['ctrlpts']]
     els = [G.build(sd) for sd in sds]
     ss = rng.randint(3, 5) if pdim == 2 else 3
     for e in els:
